@@ -847,6 +847,81 @@ def b_abs(eng, args, kwargs, state, node):
         raise Unsupported("abs")
 
 
+@reg("builtins.round")
+def b_round(eng, args, kwargs, state, node):
+    """round(x) is SOME integer within 1/2 of x (which one at a tie is not modelled); round(x, n) some number within 10**-n / 2;
+    the result of round(Decimal) with no digits is an int, as in Python"""
+    a = args[0]
+    if isinstance(a, VInt):
+        yield a, state
+        return
+    if not isinstance(a, VNum):
+        raise Unsupported("round(%r)" % (a,))
+    if len(args) == 1 or isinstance(args[1], VNone):
+        r = fresh("round", I)
+        st = state.fork()
+        st.assume(z3.And(2 * (z3.ToReal(r) - a.val) <= 1, 2 * (a.val - z3.ToReal(r)) <= 1))
+        yield VInt(r), st
+        return
+    n = args[1]
+    if isinstance(n, VInt) and z3.is_int_value(simp(n.z)):
+        k = simp(n.z).as_long()
+        r = fresh("round", R)
+        half = z3.RealVal(10) ** (-k) / 2 if k >= 0 else z3.RealVal(10 ** (-k)) / 2
+        st = state.fork()
+        st.assume(z3.And(r - a.val <= half, a.val - r <= half))
+        yield VNum(a.kind, r), st
+        return
+    raise Unsupported("round with symbolic digits")
+
+
+def _minmax(eng, args, state, node, is_min):
+    vals = list(args)
+    if len(vals) == 1 and isinstance(vals[0], VTuple):
+        vals = list(vals[0].items)
+    if len(vals) < 2 or not all(is_numeric(v) for v in vals):
+        raise Unsupported("min/max of %r" % (vals,))
+    best = vals[0]
+    for v in vals[1:]:
+        c = num_compare("Lt", v, best) if is_min else num_compare("Gt", v, best)
+        if isinstance(best, VInt) and isinstance(v, VInt):
+            best = VInt(z3.If(c, v.z, best.z))
+        else:
+            bn, vn = to_num(best), to_num(v)
+            best = VNum(z3.If(c, vn.kind, bn.kind), z3.If(c, vn.val, bn.val))
+    yield best, state
+
+
+@reg("builtins.min")
+def b_min(eng, args, kwargs, state, node):
+    yield from _minmax(eng, args, state, node, True)
+
+
+@reg("builtins.max")
+def b_max(eng, args, kwargs, state, node):
+    yield from _minmax(eng, args, state, node, False)
+
+
+@reg("builtins.divmod")
+def b_divmod(eng, args, kwargs, state, node):
+    for q, s1 in eng.binop("FloorDiv", args[0], args[1], state, node):
+        if isinstance(q, Exc):
+            yield q, s1
+            continue
+        for m, s2 in eng.binop("Mod", args[0], args[1], s1, node):
+            yield (m if isinstance(m, Exc) else VTuple([q, m])), s2
+
+
+@reg("math.isclose")
+def b_isclose(eng, args, kwargs, state, node):
+    a, b = to_num(args[0]).val, to_num(args[1]).val
+    rel = to_num(kwargs["rel_tol"]).val if "rel_tol" in kwargs else z3.RealVal("1e-9")
+    ab = to_num(kwargs["abs_tol"]).val if "abs_tol" in kwargs else z3.RealVal(0)
+    absr = lambda x: z3.If(x >= 0, x, -x)
+    big = z3.If(absr(a) >= absr(b), absr(a), absr(b))
+    yield VBool(z3.Or(a == b, absr(a - b) <= z3.If(rel * big >= ab, rel * big, ab))), state
+
+
 @reg("builtins.bool")
 def b_bool(eng, args, kwargs, state, node):
     yield VBool(truth(freeze(eng, args[0], state))), state
